@@ -183,7 +183,9 @@ def g_tt(rng, tier):
         return "tt.rmsub %s %s %s" % (hx(pick(rng, tier, NESTED, [b, e])), hx(b), hx(e))
     if f == "rmsub5":
         b, e = rng.choice([("(", ")"), ("[", "]"), ("<", ">"), ("(", "("), ("a", "b")])
-        s = pick(rng, tier, NESTED + ["f(x) = <a> (b) c", "a(b)c(d)e", "x(y(z)w)v", "(a)", "((", "a)b(c"], [b, e])
+        # the output of this overload is quadratic in the input (an unclosed nest copies the text before
+        # it once per opening character): inputs are kept to 1 KiB so that answers stay printable
+        s = pick(rng, tier, NESTED + ["f(x) = <a> (b) c", "a(b)c(d)e", "x(y(z)w)v", "(a)", "((", "a)b(c"], [b, e])[:1024]
         xb = [rng.choice(["x" + b, b + "y", "ab" + b + "c", b, "no", "", b + b, "zz" + b, "(a", "f("]) for _ in range(rng.choice([0, 0, 1, 1, 2, 3]))]
         xe = [rng.choice(["x" + e, e + "y", "ab" + e + "c", e, "no", "", e + e, "a)", ")c"]) for _ in range(rng.choice([0, 0, 1, 1, 2]))]
         return "tt.rmsub5 %s %s %s %d %s%d %s" % (hx(s), hx(b), hx(e), len(xb), "".join(hx(x) + " " for x in xb), len(xe), " ".join(hx(x) for x in xe))
